@@ -803,6 +803,27 @@ func sanitize(s string) string {
 }
 
 func writeEvidence(prop, tier string, seed uint64, plan *Plan, m *merged, b *buildOut, wallS, buildS float64, nViol int, knownHit []string) {
+	if len(plan.RacePhase) > 0 {
+		// (a copy: the plan tables are shared)
+		var names []string
+		for _, sp := range plan.RacePhase {
+			names = append(names, sp.Name)
+		}
+		cp := *plan
+		note := "goroutine scheduling in the race-tier phase (" + strings.Join(names, ", ") + "): NOT simulated (free-running goroutines, Go runtime under the race detector)"
+		has := false
+		for _, st := range cp.Stub {
+			if strings.HasPrefix(st, "goroutine scheduling in the") {
+				has = true
+			}
+		}
+		if !has {
+			cp.Stub = append(append([]string{}, cp.Stub...), note)
+		}
+		cp.Assumptions = append(append([]string{}, cp.Assumptions...), "race-tier phase ("+strings.Join(names, ", ")+"): the workload is seed-determined, the schedule is not; a violation found there is reported with the run that produced it and may not recur on replay; race-detector reports confined to the code the property rests on count as violations of the property")
+		cp.Rule += " Race-tier phase: scenario(s) " + strings.Join(names, ", ") + " in a -race build with GOMAXPROCS=4 and free-running goroutines (see DESIGN.md 10.3, waves 17-18)."
+		plan = &cp
+	}
 	sites := make([]string, 0, len(m.sites))
 	for s := range m.sites {
 		sites = append(sites, s)
